@@ -1,8 +1,34 @@
 # Table of claimed checks / not-applicable reasons (exec'd by gen_manifest.py)
-CHECKS["C15"] = chk("C15",
-    "Proof, for all clock values and client ids: exact postconditions of OperationID.Next/RollBack/SyncLamport/GetTimestamp and Timestamp.GetAndNextDelimiter in 64/32-bit bit-vector semantics, and Compare equals the lexicographic order on (Era, Lamport, CUID) under the stated validity ranges.",
-    COMMON_NOTE + " valid(ts): Lamport < 2^63, Era < 2^31 are preconditions.", "5 C15")
+def P(pid, text, note=None, ref=None):
+    CHECKS[pid] = chk(pid, text, (note + " " if note else "") + COMMON_NOTE, ref or ("5 " + pid))
+
+P("C02",
+  "Proof for all inputs of the per-function conflict rules, written from the property text: Timestamp/OperationID.Compare is the lexicographic order on (Era, Lamport, CUID); a map key ends up with the entry of greater timestamp and every other key is untouched (putCommonWithTimedType, removeLocal/RemoteWithTimedType, with Size == number of live keys); the counter adds modulo 2^32. List/array sibling order and update/delete rules are not yet under contract (see evidence functions_under_contract).",
+  "valid(ts) ranges (Lamport < 2^63, Era < 2^31) are preconditions.")
+P("C03",
+  "Proof for all arguments of the sequential specification of the Map and Counter snapshots (get/put/remove/size against the plain map of live entries; Size equals the live count) including error-changes-nothing frames; List and Document API functions are not yet under contract.")
+P("C05",
+  "Proof of the per-function contracts the sync protocol is made of: the client sends exactly its unacknowledged operations (getModelOperations), its checkpoint only moves forward (syncCheckPoint), the server numbers accepted operations consecutively after the end of the log and acknowledges exactly what it stored (pushOperations, pullOperations, commitToMongoDB). The whole-history induction (L2) over these contracts is not yet mechanised.")
+P("C06",
+  "Proof for all request batches: pushOperations accepts exactly the operations continuing the client's sequence, assigns consecutive server sequence numbers End+1.., stores every such operation once with its identifier, ignores re-pushed ones and refuses a gap; commitToMongoDB records End == checkpoint. Loop invariant over unbounded batches.")
+P("C07",
+  "Proof of the client-side steps that make retries and stale replies harmless: a reply whose checkpoint is behind the client's drops all its operations (no panic), the checkpoint is a running maximum, pulling arithmetic is exact in 64-bit arithmetic. The property-level lemma (exactly-once under arbitrary fault placement) is not yet mechanised; the count-based skip of excludeDuplicatedOperations is verified only against what the code does.")
+P("C08",
+  "Proof that an error reply (any code, including storage failures reported by the server) is returned as an error by the client without panic and leaves checkpoint, pending operations and identifiers unchanged (checkOptionAndError), and that commitToMongoDB writes operations before the datatype document. Server-side retry-acceptance after a partial commit is not yet under contract.")
+P("C09",
+  "Proof for all received operation sequences: ReceiveRemoteModelOperations never slices beyond what was received and always terminates; a transaction unit whose announced length is non-positive or exceeds what is present is refused before any of its operations is applied; ModelToOperation yields a TransactionOperation exactly for transaction-typed operations.")
+P("C13",
+  "Proof of the server decision table classification (evaluatePushPullCase: what each case code implies about the stored datatype, key, type, collection and subscription), of initClientInfoWithDatatypeDoc, and of the client's handling of subscribe/error replies (checkOptionAndError, ResetWired, ResetSnapshot of counter/map/list). processSubscribeOrCreate refusal rows are not yet under contract.")
+P("C14",
+  "Proof that ModelToOperation preserves identifier and type, returns the Go operation type matching the wire type for every declared operation type, and that its unsupported-type panic is unreachable for them. Value fidelity through encoding/json, protobuf and BSON is not claimed (library semantics).")
+P("C15",
+  "Proof, for all clock values and client ids: exact postconditions of OperationID.Next/RollBack/SyncLamport/GetTimestamp and Timestamp.GetAndNextDelimiter in 64/32-bit bit-vector semantics, Compare equals the lexicographic order on (Era, Lamport, CUID) under the stated validity ranges, Hash renders exactly (Era, Lamport, Delimiter, CUID), ResetWired restarts numbering at 0.",
+  "valid(ts): Lamport < 2^63, Era < 2^31 are preconditions.")
+P("C16",
+  "Proof of absence of panics and of the reply/refusal contracts on the parts of the request path under contract: client checkOptionAndError and ReceiveRemoteModelOperations for all replies, server evaluatePushPullCase and initClientInfoWithDatatypeDoc for all requests and database answers. process/finalize (exactly one reply) not yet under contract.")
+P("C17",
+  "Proof that every datatype document evaluatePushPullCase hands to the handler belongs to the caller's collection, on both lookup paths (by key and by DUID), for all database answers. Purge filters and collection-number generation not yet under contract.")
 _pending = "not claimed yet: machinery for this property is still being built in this session (no check registered, nothing reported)"
-for p in ["C01","C02","C03","C04","C05","C06","C07","C08","C09","C10","C11","C12","C13","C14","C16","C17","C18","C19"]:
+for p in ["C01","C04","C10","C11","C12","C18","C19"]:
     NA[p] = _pending
 NA["C20"] = "quantified over thread schedules only (unsynchronised isLocked/txCtx read racing with BeginTransaction): a sequential weakest-precondition calculus has no second thread; a sequential lock-balance proof would pass while the property is false (DESIGN.md section 6)"
